@@ -30,6 +30,9 @@ LinkViol(ev) ==
 \* parmcb files and its own text does not vanish) - an include-guard clash or a leaked macro makes it silently empty
 PairViol(ev) ==
   IF Len(ev.missing) # 0 \/ (ev.own_alone > 0 /\ ev.own_after = 0) THEN {"header-suppressed-by-an-earlier-header"} ELSE {}
+\* a program of two translation units that both include the umbrella header and INSTANTIATE the entry points available in the
+\* configuration (templates are only checked when instantiated): it must compile, link and run
+UseViol(ev) == IF ev.compiled /\ ev.linked /\ ev.ran THEN {} ELSE {"entry-points-unusable-in-configuration"}
 \* every pair of compiled TUs of one configuration, including a header with itself
 AllPairsViol(cfg) ==
   LET names == {t \in DOMAIN tus : tus[t].ok /\ tus[t].cfg = cfg}
